@@ -55,14 +55,21 @@ Section Safety.
   Definition lok (l : log) : Prop := Forall (in_bounds L) (l_tr l).
   Definition frame (r r' : rdr) : Prop := r_base r' = r_base r /\ r_max r' = r_max r /\ r_rd r <= r_rd r'.
 
+  (* the allocation bound: KA model-bytes of requests per byte of input *)
+  Definition KA : N := 128.
+
   (* [F]: when does the fuel suffice;  [B]: 28 * (deepest level this call may record);  [P]: bytes a successful call
-     consumes at least *)
-  Definition post {A} (F : rdr -> Prop) (B : rdr -> N) (P : N) (r : rdr) (l : log) (y : res A * rdr * log) : Prop :=
+     consumes at least;  [E]: allocation the call may make beyond KA bytes per byte it consumes (paid for by bytes the
+     caller has consumed already).  The two allocation clauses: a successful call allocates at most KA per byte it
+     consumed (+E); a failing call at most KA per byte that was available to it (+E). *)
+  Definition post {A} (F : rdr -> Prop) (B : rdr -> N) (P E : N) (r : rdr) (l : log) (y : res A * rdr * log) : Prop :=
     let '(x, r', l') := y in
     rok r' /\ frame r r' /\ lok l' /\ x <> Crash /\ (F r -> x <> Fuel) /\ l_ub l' = l_ub l /\
-    (l_dp l' <= l_dp l \/ 28 * l_dp l' <= B r) /\ (forall a, x = Ok a -> r_rd r + P <= r_rd r').
-  Definition safe {A} (F : rdr -> Prop) (B : rdr -> N) (P : N) (m : M A) : Prop :=
-    forall r l, rok r -> lok l -> post F B P r l (m r l).
+    (l_dp l' <= l_dp l \/ 28 * l_dp l' <= B r) /\ (forall a, x = Ok a -> r_rd r + P <= r_rd r') /\
+    (forall a, x = Ok a -> l_al l' + KA * r_rd r <= l_al l + KA * r_rd r' + E) /\
+    (x = Err -> l_al l' <= l_al l + KA * avail r + E).
+  Definition safe {A} (F : rdr -> Prop) (B : rdr -> N) (P E : N) (m : M A) : Prop :=
+    forall r l, rok r -> lok l -> post F B P E r l (m r l).
 
   Lemma NOLIM_val : NOLIM = 4294967295.  Proof. reflexivity. Qed.
   Lemma W_val : W = 4.  Proof. reflexivity. Qed.
@@ -84,6 +91,8 @@ Section Safety.
   Proof. unfold frame; intros (A1 & A2 & A3) (B1 & B2 & B3); repeat split; lia. Qed.
 
 
+  Definition fuel_ok (k : nat) (r : rdr) : Prop := avail r < N.of_nat k.
+
   (* ---------------------------------------------------------------- proof automation *)
   Ltac brk :=
     match goal with
@@ -95,130 +104,19 @@ Section Safety.
     | |- context [if negb (N.eqb ?a ?b) then _ else _] => destruct (N.eqb_spec a b); cbn [negb]
     | |- context [if N.eqb ?a ?b then _ else _] => destruct (N.eqb_spec a b)
     end.
-  Ltac rcbn := unfold pos in *; cbn [r_base r_rd r_max r_bad l_tr l_al l_dp l_ub adv flag set_rd set_max touch charge deepen undef fst snd] in *.
-  Ltac lokt := pose proof HL as HLk; unfold lok, rok in *; rcbn; repeat (apply Forall_cons; [unfold in_bounds; cbn [fst snd]; try lia|]); try assumption.
-  Ltac fin :=
-    pose proof HL as HLf; unfold post, ret, err, crash, nofuel; rcbn;
-    repeat match goal with |- _ /\ _ => split end;
-    try (unfold rok, frame in *; rcbn; repeat split; lia);
-    try lokt; try discriminate; try (intros; discriminate); try (left; rcbn; lia); try (intros; rcbn; lia).
-
-  (* ---------------------------------------------------------------- strings *)
-  Lemma avail_child o n : n < 4294967295 -> avail (mkR o 0 n false) = n.
-  Proof.
-    intro H. unfold avail; cbn [r_max r_rd]. rewrite NOLIM_val.
-    destruct (N.eqb_spec n 4294967295); [lia|]. destruct (N.ltb_spec 0 n); lia.
-  Qed.
-
-  Lemma rd_lp_string_safe : safe (fun _ => True) (fun _ => 0) 4 (rd_lp_string bs).
-  Proof.
-    pose proof HL as HL'. intros r l Hr Hl. pose proof (avail_ok r Hr) as Ha. unfold rd_lp_string. rewrite W_val.
-    brk; [|fin].
-    assert (Hr1 : rok (adv 4 r)) by (unfold rok in *; rcbn; lia).
-    pose proof (avail_ok _ Hr1) as Ha1.
-    brk; [|fin; unfold rok in *; rcbn; lia].
-    match goal with H : ?n <= avail (adv 4 r) |- _ => set (n0 := n) in *; rename H into Hn end.
-    rewrite Ha1 in Hn. rcbn.
-    unfold read_cstring. rewrite avail_child by (unfold rok in *; lia). rcbn. rewrite NOLIM_val.
-    destruct (N.eqb_spec n0 0) as [Hz|Hz]; [fin; unfold rok in *; lia|].
-    destruct (N.eqb_spec n0 4294967295) as [Hbig|_]; [unfold rok in Hr; lia|].
-    match goal with |- context [nul_index ?w 0] => destruct (nul_index w 0) as [k|] eqn:Ek end.
-    - apply nul_index_bounds in Ek. unfold slice in Ek. rewrite len_takeN in Ek.
-      fin; unfold rok in *; lia.
-    - fin; unfold rok in *; lia.
-  Qed.
-
-  Lemma u32_small x : x < 4294967296 -> u32 x = x.
-  Proof. intro H. unfold u32, two32. apply N.mod_small; exact H. Qed.
-
-  (* the reader a DataUnflattenerReadLimiter leaves behind while it is in force *)
-  Lemma limited_rok r lim : rok r -> rok (set_max (u32 (r_rd r + N.min lim (avail r))) r)
-                                    /\ u32 (r_rd r + N.min lim (avail r)) = r_rd r + N.min lim (r_max r - r_rd r).
-  Proof.
-    intro Hr. rewrite (avail_ok r Hr). unfold rok in *. pose proof HL as HL'. rewrite u32_small by lia. rcbn. split; [lia|reflexivity].
-  Qed.
-
-  Definition fuel_ok (k : nat) (r : rdr) : Prop := avail r < N.of_nat k.
-
-  (* ---------------------------------------------------------------- the item loops *)
-  Lemma fix_items_loop_safe k : forall i n u rsz acc, 0 < rsz ->
-    safe (fuel_ok k) (fun _ => 0) 0 (fix_items_loop bs k i n u rsz acc).
-  Proof.
-    pose proof HL as HL'. induction k as [|k IH]; intros i n u rsz acc Hrsz r l Hr Hl; pose proof (avail_ok r Hr) as Ha;
-      cbn [fix_items_loop]; brk; try (fin; fail).
-    - fin. intro HF; unfold fuel_ok in HF; cbn in HF; lia.
-    - unfold bnd at 1. unfold with_limit.
-      destruct (limited_rok r u Hr) as [Hr0 Hu]. rewrite Hu in *.
-      set (r0 := set_max _ r) in *.
-      pose proof (avail_ok r0 Hr0) as Ha0. unfold rd_bytes. subst r0.
-      brk.
-      + rcbn.
-        match goal with |- context [fix_items_loop bs k ?i' n u rsz ?acc' ?r' ?l'] =>
-          assert (Hr' : rok r') by (unfold rok in *; rcbn; lia);
-          assert (Hl' : lok l') by (lokt; unfold rok in *; rcbn; lia);
-          pose proof (IH i' n u rsz acc' Hrsz r' l' Hr' Hl') as S; pose proof (avail_ok r' Hr') as Ha';
-          destruct (fix_items_loop bs k i' n u rsz acc' r' l') as [[x r2] l2]
-        end.
-        unfold post in S. destruct S as (S1 & S2 & S3 & S4 & S5 & S6 & S7 & S8). rcbn.
-        unfold post. repeat match goal with |- _ /\ _ => split end; try assumption; try (unfold rok, frame in *; rcbn; lia).
-        intro HF. apply S5. unfold fuel_ok in *. rewrite Ha in HF. rewrite Ha'. rcbn. lia.
-      + fin.
-  Qed.
-
-  (* use a [safe] fact [S] about the call [fn r' l'] that blocks the goal: proves the invariant of the intermediate
-     state, destructs the call's result and leaves the components of its postcondition in the context *)
-  Ltac rokt := pose proof HL as HLr; unfold rok, frame in *; rcbn; lia.
-  Ltac use S fn :=
-    lazymatch goal with |- context [fn ?r' ?l'] =>
-      let Hr' := fresh "Hr" in let Hl' := fresh "Hl" in let P := fresh "P" in let Ha' := fresh "Ha" in
-      assert (Hr' : rok r') by rokt;
-      assert (Hl' : lok l') by (lokt; rokt);
-      pose proof (S r' l' Hr' Hl') as P; pose proof (avail_ok r' Hr') as Ha';
-      let x := fresh "x" in let r2 := fresh "r" in let l2 := fresh "l" in
-      destruct (fn r' l') as [[x r2] l2]; unfold post in P;
-      let P1 := fresh "Prok" in let P2 := fresh "Pfr" in let P3 := fresh "Plok" in let P4 := fresh "Pcr" in
-      let P5 := fresh "Pfu" in let P6 := fresh "Pub" in let P7 := fresh "Pdp" in let P8 := fresh "Ppr" in
-      destruct P as (P1 & P2 & P3 & P4 & P5 & P6 & P7 & P8);
-      let Ha2 := fresh "Ha" in pose proof (avail_ok r2 P1) as Ha2
+  Ltac brkh :=
+    match goal with
+    | H : context [if N.ltb ?a ?b then _ else _] |- _ => destruct (N.ltb_spec a b)
+    | H : context [if N.leb ?a ?b then _ else _] |- _ => destruct (N.leb_spec a b)
+    | H : context [if N.eqb ?a ?b then _ else _] |- _ => destruct (N.eqb_spec a b)
     end.
-  (* close a goal [post ..] on a concrete final state from the facts in the context *)
-  Ltac done_post :=
-    try (exfalso; match goal with H : Crash <> Crash |- _ => apply H; reflexivity end);
-    pose proof HL as HLd; unfold post, ret, err, crash, nofuel; rcbn;
-    repeat match goal with |- _ /\ _ => split end;
-    try assumption; try (unfold rok, frame in *; rcbn; lia); try lokt; try discriminate; try (intros; discriminate).
+  Ltac costs := unfold KA, cost_msg, cost_entry, cost_arr, cost_bb, cost_ref, grow, tbl_default, str_cost, W,
+                  c_SIZEOF_Message, c_SIZEOF_uint32, c_SIZEOF_String, c_SIZEOF_MessageField, c_SIZEOF_ByteBuffer,
+                  c_SIZEOF_MessageRef, c_MUSCLE_HASHTABLE_DEFAULT_CAPACITY, c_STRING_MAX_SHORT_LENGTH in *.
+  Ltac rcbn := unfold pos in *; cbn [r_base r_rd r_max r_bad l_tr l_al l_dp l_ub adv flag set_rd set_max touch charge deepen undef fst snd] in *.
+  Ltac rokt := pose proof HL as HLr; unfold rok, frame in *; rcbn; lia.
+  Ltac lokt := pose proof HL as HLk; unfold lok, rok in *; rcbn; repeat (apply Forall_cons; [unfold in_bounds; cbn [fst snd]; try lia|]); try assumption.
 
-  (* what [done_post] leaves: the fuel implication, the depth alternative, the progress bound *)
-  Ltac rest :=
-    pose proof HL as HLq;
-    try (intro HF;
-         match goal with H : _ -> ?x <> Fuel |- ?x <> Fuel => apply H end;
-         unfold fuel_ok, rok, frame in *; rcbn; lia);
-    try (intro HF; exfalso;
-         match goal with H : _ -> Fuel <> Fuel |- _ => apply H; [|reflexivity] end;
-         unfold fuel_ok, rok, frame in *; rcbn; lia);
-    try (repeat match goal with H : _ \/ _ |- _ => destruct H end; unfold rok, frame in *; rcbn; first [left; lia | right; lia]);
-    try (let a := fresh "a" in let Hx := fresh "Hx" in intros a Hx;
-         repeat match goal with H : forall b, ?x = Ok b -> _ |- _ => specialize (H _ Hx) end;
-         unfold rok, frame in *; rcbn; lia).
-
-  Lemma str_items_loop_safe k : forall i n acc, safe (fuel_ok k) (fun _ => 0) 0 (str_items_loop bs k i n acc).
-  Proof.
-    pose proof HL as HL'. induction k as [|k IH]; intros i n acc r l Hr Hl; pose proof (avail_ok r Hr) as Ha;
-      cbn [str_items_loop]; brk; try (fin; fail).
-    - fin. intro HF; unfold fuel_ok in HF; cbn in HF; lia.
-    - unfold bnd at 1.
-      use rd_lp_string_safe (rd_lp_string bs).
-      destruct x as [s| | |]; try (done_post; fail).
-      + use (IH (i + 1) n (items_snoc acc (IStr s))) (str_items_loop bs k (i + 1) n (items_snoc acc (IStr s))).
-        specialize (Ppr s eq_refl).
-        done_post; rest.
-      + exfalso. apply Pfu; [exact I | reflexivity].
-  Qed.
-
-  Ltac prims := unfold bnd, rd_u32, rd_val, rd_bytes, status, get_avail, get_pos, get_rd, alloc, enter, note_ub, guard, peek,
-                       seek_to_end, seek_rel, seek_to, ret, err, crash, nofuel.
-  Ltac brk_bad := match goal with |- context [if r_bad ?r then _ else _] => destruct (r_bad r) eqn:? end.
   (* replace [avail x] for a compound reader x by its value, once the window invariant of x follows from the context *)
   Ltac avs :=
     repeat match goal with
@@ -237,22 +135,230 @@ Section Safety.
         assert (E : avail x = r_max x - r_rd x) by (apply avail_ok; rokt);
         rewrite E in *; clear E; rcbn
     end.
-  Ltac go := repeat (cbv beta iota zeta; rcbn; avs; first [brk | brk_bad]); cbv beta iota zeta; rcbn; avs.
 
-  Ltac rest ::=
+  (* every quotient a/c by a numeral becomes an opaque N variable q with c*q <= a (lia forgets that N quotients are >= 0) *)
+  Ltac divs :=
+    repeat match goal with
+    | H : context [?a / ?c] |- _ =>
+        pose proof (N.mul_div_le a c ltac:(lia)); let q := fresh "q" in set (q := a / c) in *; clearbody q
+    | |- context [?a / ?c] =>
+        pose proof (N.mul_div_le a c ltac:(lia)); let q := fresh "q" in set (q := a / c) in *; clearbody q
+    end.
+
+  (* instantiate what the sub-calls promised for the outcome they actually had *)
+  Ltac inst :=
+    repeat match goal with
+    | H : _ /\ _ |- _ => destruct H
+    | H : Err = Err -> _ |- _ => specialize (H eq_refl)
+    | H : forall b, Ok ?m = Ok b -> _ |- _ => specialize (H _ eq_refl)
+    | H : Ok _ = Err -> _ |- _ => clear H
+    | H : Fuel = Err -> _ |- _ => clear H
+    | H : forall b, Err = Ok b -> _ |- _ => clear H
+    | H : forall b, Fuel = Ok b -> _ |- _ => clear H
+    end.
+
+  (* split a goal [post ..] on a concrete final state and close what follows from the context directly *)
+  Ltac done_post :=
+    try (exfalso; match goal with H : Crash <> Crash |- _ => apply H; reflexivity end);
+    pose proof HL as HLd; unfold post, ret, err, crash, nofuel; rcbn;
+    repeat match goal with |- _ /\ _ => split end;
+    try assumption; try (unfold rok, frame in *; rcbn; lia); try lokt; try discriminate; try (intros; discriminate).
+  (* what [done_post] leaves: the fuel implication, the depth alternative, the progress and allocation bounds *)
+  Ltac rest :=
     pose proof HL as HLq;
     try (intro HF;
          match goal with H : _ -> ?x <> Fuel |- ?x <> Fuel => apply H end;
-         unfold fuel_ok, rok, frame in *; rcbn; avs; lia);
+         inst; unfold fuel_ok, rok, frame in *; rcbn; avs; lia);
     try (intro HF; exfalso;
          match goal with H : _ -> Fuel <> Fuel |- _ => apply H; [|reflexivity] end;
-         unfold fuel_ok in *; avs; unfold rok, frame in *; rcbn; lia);
-    try (repeat match goal with H : _ \/ _ |- _ => destruct H end; avs; unfold rok, frame in *; rcbn; first [left; lia | right; lia]);
-    try (let a := fresh "a" in let Hx := fresh "Hx" in intros a Hx;
+         inst; unfold fuel_ok in *; avs; unfold rok, frame in *; rcbn; lia);
+    try (inst; repeat match goal with H : _ \/ _ |- _ => destruct H end; avs; unfold rok, frame in *; rcbn; first [left; lia | right; lia]);
+    try (let a := fresh "a" in let Hx := fresh "Hx" in intros a Hx; try discriminate;
          repeat match goal with H : forall b, ?x = Ok b -> _ |- _ => specialize (H _ Hx) end;
-         unfold rok, frame in *; rcbn; lia).
+         inst; avs; unfold rok, frame in *; rcbn; costs; divs; repeat brk; repeat brkh; lia);
+    try (let Hx := fresh "Hx" in intro Hx; try discriminate;
+         repeat match goal with H : ?x = Err -> _ |- _ => specialize (H Hx) end;
+         inst; avs; unfold rok, frame in *; rcbn; costs; divs; repeat brk; repeat brkh; lia).
+  Ltac fin := done_post; rest.
 
-  Lemma raw_items_loop_safe k : forall i n acc, safe (fuel_ok k) (fun _ => 0) 0 (raw_items_loop bs k i n acc).
+  (* use a [safe] fact [S] about the call [fn r' l'] that blocks the goal: proves the invariant of the intermediate
+     state, destructs the call's result and leaves the components of its postcondition in the context *)
+  Ltac use S fn :=
+    lazymatch goal with |- context [fn ?r' ?l'] =>
+      let Hr' := fresh "Hr" in let Hl' := fresh "Hl" in let P := fresh "P" in let Ha' := fresh "Ha" in
+      assert (Hr' : rok r') by rokt;
+      assert (Hl' : lok l') by (lokt; rokt);
+      pose proof (S r' l' Hr' Hl') as P; pose proof (avail_ok r' Hr') as Ha';
+      let x := fresh "x" in let r2 := fresh "r" in let l2 := fresh "l" in
+      destruct (fn r' l') as [[x r2] l2]; unfold post in P;
+      let P1 := fresh "Prok" in let P2 := fresh "Pfr" in let P3 := fresh "Plok" in let P4 := fresh "Pcr" in
+      let P5 := fresh "Pfu" in let P6 := fresh "Pub" in let P7 := fresh "Pdp" in let P8 := fresh "Ppr" in
+      let P9 := fresh "Pao" in let P10 := fresh "Pae" in
+      destruct P as (P1 & P2 & P3 & P4 & P5 & P6 & P7 & P8 & P9 & P10);
+      let Ha2 := fresh "Ha" in pose proof (avail_ok r2 P1) as Ha2
+    end.
+
+  (* the same, with an additional fact [T r' l' Hrok] about the same call *)
+  Ltac use_t S T fn :=
+    lazymatch goal with |- context [fn ?r' ?l'] =>
+      let Hr' := fresh "Hr" in let Ht := fresh "Ht" in
+      assert (Hr' : rok r') by rokt;
+      let Hl' := fresh "Hl" in assert (Hl' : lok l') by (lokt; rokt);
+      pose proof (T r' l' Hr' Hl') as Ht;
+      use S fn;
+      cbv beta iota zeta in Ht
+    end.
+
+  Ltac prims := unfold bnd, rd_u32, rd_val, rd_bytes, status, get_avail, get_pos, get_rd, alloc, enter, note_ub, guard, peek,
+                       seek_to_end, seek_rel, seek_to, ret, err, crash, nofuel.
+  Ltac brk_bad := match goal with |- context [if r_bad ?r then _ else _] => destruct (r_bad r) eqn:? end.
+  Ltac go := repeat (cbv beta iota zeta; rcbn; avs; first [brk | brk_bad]); cbv beta iota zeta; rcbn; avs.
+
+  (* ---------------------------------------------------------------- strings *)
+  Lemma avail_child o n : n < 4294967295 -> avail (mkR o 0 n false) = n.
+  Proof.
+    intro H. unfold avail; cbn [r_max r_rd]. rewrite NOLIM_val.
+    destruct (N.eqb_spec n 4294967295); [lia|]. destruct (N.ltb_spec 0 n); lia.
+  Qed.
+
+  Lemma rd_lp_string_safe : safe (fun _ => True) (fun _ => 0) 4 0 (rd_lp_string bs).
+  Proof.
+    pose proof HL as HL'. intros r l Hr Hl. pose proof (avail_ok r Hr) as Ha. unfold rd_lp_string. rewrite W_val.
+    brk; [|fin].
+    assert (Hr1 : rok (adv 4 r)) by (unfold rok in *; rcbn; lia).
+    pose proof (avail_ok _ Hr1) as Ha1.
+    brk; [|fin; unfold rok in *; rcbn; lia].
+    match goal with H : ?n <= avail (adv 4 r) |- _ => set (n0 := n) in *; rename H into Hn end.
+    rewrite Ha1 in Hn. rcbn.
+    unfold read_cstring. rewrite avail_child by (unfold rok in *; lia). rcbn. rewrite NOLIM_val.
+    destruct (N.eqb_spec n0 0) as [Hz|Hz]; [fin; unfold rok in *; lia|].
+    destruct (N.eqb_spec n0 4294967295) as [Hbig|_]; [unfold rok in Hr; lia|].
+    match goal with |- context [nul_index ?w 0] => destruct (nul_index w 0) as [k|] eqn:Ek end.
+    - apply nul_index_bounds in Ek. unfold slice in Ek. rewrite len_takeN in Ek.
+      fin; unfold rok in *; lia.
+    - fin; unfold rok in *; lia.
+  Qed.
+
+  (* a string costs at most its own bytes: tight allocation facts, whatever the outcome *)
+  Lemma rd_lp_string_tight r l : rok r ->
+    let '(x, r', l') := rd_lp_string bs r l in l_al l' + r_rd r <= l_al l + r_rd r'.
+  Proof.
+    pose proof HL as HL'. intro Hr. pose proof (avail_ok r Hr) as Ha. unfold rd_lp_string. rewrite W_val.
+    brk; [|rcbn; lia].
+    assert (Hr1 : rok (adv 4 r)) by rokt.
+    pose proof (avail_ok _ Hr1) as Ha1.
+    brk; [|rcbn; lia].
+    match goal with H : ?n <= avail (adv 4 r) |- _ => set (n0 := n) in *; rename H into Hn end.
+    rewrite Ha1 in Hn. rcbn.
+    unfold read_cstring. rewrite avail_child by (unfold rok in *; lia). rcbn. rewrite NOLIM_val.
+    destruct (N.eqb_spec n0 0) as [Hz|Hz]; [rcbn; lia|].
+    destruct (N.eqb_spec n0 4294967295) as [Hbig|_]; [unfold rok in Hr; lia|].
+    match goal with |- context [nul_index ?w 0] => destruct (nul_index w 0) as [k|] eqn:Ek end.
+    - apply nul_index_bounds in Ek. unfold slice in Ek. rewrite len_takeN in Ek. rcbn. costs. brk; lia.
+    - rcbn. lia.
+  Qed.
+
+  (* a string that was read lies, with its terminator and its length word, inside what was consumed *)
+  Lemma rd_lp_string_name r l : rok r -> lok l ->
+    let '(x, r', l') := rd_lp_string bs r l in forall s, x = Ok s -> r_rd r + 4 + len s + 1 <= r_rd r'.
+  Proof.
+    pose proof HL as HL'. intros Hr _. pose proof (avail_ok r Hr) as Ha. unfold rd_lp_string. rewrite W_val.
+    brk; [|intros s E; discriminate].
+    assert (Hr1 : rok (adv 4 r)) by rokt.
+    pose proof (avail_ok _ Hr1) as Ha1.
+    brk; [|intros s E; discriminate].
+    match goal with H : ?n <= avail (adv 4 r) |- _ => set (n0 := n) in *; rename H into Hn end.
+    rewrite Ha1 in Hn. rcbn.
+    unfold read_cstring. rewrite avail_child by (unfold rok in *; lia). rcbn. rewrite NOLIM_val.
+    destruct (N.eqb_spec n0 0) as [Hz|Hz]; [intros s E; discriminate|].
+    destruct (N.eqb_spec n0 4294967295) as [Hbig|_]; [unfold rok in Hr; lia|].
+    match goal with |- context [nul_index ?w 0] => destruct (nul_index w 0) as [k|] eqn:Ek end.
+    - apply nul_index_bounds in Ek. unfold slice in Ek. rewrite len_takeN in Ek.
+      intros s E. injection E as <-. unfold slice. rewrite len_takeN. rcbn. lia.
+    - intros s E; discriminate.
+  Qed.
+
+  Lemma rd_lp_string_facts r l : rok r -> lok l ->
+    let '(x, r', l') := rd_lp_string bs r l in
+    l_al l' + r_rd r <= l_al l + r_rd r' /\ (forall s, x = Ok s -> r_rd r + 4 + len s + 1 <= r_rd r').
+  Proof.
+    intros Hr Hl. pose proof (rd_lp_string_tight r l Hr) as T. pose proof (rd_lp_string_name r l Hr Hl) as N.
+    destruct (rd_lp_string bs r l) as [[x r1] l1]. split; assumption.
+  Qed.
+
+  Lemma u32_small x : x < 4294967296 -> u32 x = x.
+  Proof. intro H. unfold u32, two32. apply N.mod_small; exact H. Qed.
+
+  (* the reader a DataUnflattenerReadLimiter leaves behind while it is in force *)
+  Lemma limited_rok r lim : rok r -> rok (set_max (u32 (r_rd r + N.min lim (avail r))) r)
+                                    /\ u32 (r_rd r + N.min lim (avail r)) = r_rd r + N.min lim (r_max r - r_rd r).
+  Proof.
+    intro Hr. rewrite (avail_ok r Hr). unfold rok in *. pose proof HL as HL'. rewrite u32_small by lia. rcbn. split; [lia|reflexivity].
+  Qed.
+
+
+  (* ---------------------------------------------------------------- the item loops *)
+  Lemma fix_items_loop_safe k : forall i n u rsz acc, 0 < rsz ->
+    safe (fuel_ok k) (fun _ => 0) 0 0 (fix_items_loop bs k i n u rsz acc).
+  Proof.
+    pose proof HL as HL'. induction k as [|k IH]; intros i n u rsz acc Hrsz r l Hr Hl; pose proof (avail_ok r Hr) as Ha;
+      cbn [fix_items_loop]; brk; try (fin; fail).
+    - fin. intro HF; unfold fuel_ok in HF; cbn in HF; lia.
+    - unfold bnd at 1. unfold with_limit.
+      destruct (limited_rok r u Hr) as [Hr0 Hu]. rewrite Hu in *.
+      unfold rd_bytes. go; try (fin; fail).
+      match goal with |- context [fix_items_loop _ ?kk ?ii ?nn ?uu ?ss ?aa] =>
+        use (IH ii nn uu ss aa Hrsz) (fix_items_loop bs kk ii nn uu ss aa) end.
+      fin.
+  Qed.
+
+  Lemma str_items_loop_safe k : forall i n acc, safe (fuel_ok k) (fun _ => 0) (4 * (n - i)) 0 (str_items_loop bs k i n acc).
+  Proof.
+    pose proof HL as HL'. induction k as [|k IH]; intros i n acc r l Hr Hl; pose proof (avail_ok r Hr) as Ha;
+      cbn [str_items_loop]; brk; try (fin; fail).
+    - fin. intro HF; unfold fuel_ok in HF; cbn in HF; lia.
+    - unfold bnd at 1.
+      use rd_lp_string_safe (rd_lp_string bs).
+      match goal with x : res bytes |- _ => destruct x as [s| | |] end; try (fin; fail).
+      + match goal with |- context [str_items_loop _ ?kk ?ii ?nn ?aa] =>
+          use (IH ii nn aa) (str_items_loop bs kk ii nn aa) end.
+        fin.
+  Qed.
+
+  Lemma str_items_loop_tight k : forall i n acc r l, rok r -> lok l ->
+    let '(x, r', l') := str_items_loop bs k i n acc r l in l_al l' + r_rd r <= l_al l + r_rd r'.
+  Proof.
+    induction k as [|k IH]; intros i n acc r l Hr Hl; cbn [str_items_loop]; brk; try (unfold ret, nofuel; lia).
+    unfold bnd at 1.
+    pose proof (rd_lp_string_tight r l Hr) as T.
+    pose proof (rd_lp_string_safe r l Hr Hl) as S.
+    destruct (rd_lp_string bs r l) as [[x r1] l1]. unfold post in S. destruct S as (Hr1 & _ & Hl1 & _).
+    destruct x as [s| | |]; try lia.
+    specialize (IH (i + 1) n (items_snoc acc (IStr s)) r1 l1 Hr1 Hl1).
+    destruct (str_items_loop bs k (i + 1) n (items_snoc acc (IStr s)) r1 l1) as [[y r2] l2]. lia.
+  Qed.
+
+  (* the Point/Rect item loop allocates nothing and, when it succeeds, has consumed exactly its items *)
+  Lemma fix_items_loop_tight k : forall i n u rsz acc r l, rok r -> lok l -> 0 < rsz ->
+    let '(x, r', l') := fix_items_loop bs k i n u rsz acc r l in
+    l_al l' = l_al l /\ (forall a, x = Ok a -> r_rd r' = r_rd r + (n - i) * rsz).
+  Proof.
+    pose proof HL as HL'. induction k as [|k IH]; intros i n u rsz acc r l Hr Hl Hrsz; cbn [fix_items_loop]; brk;
+      try (unfold ret, nofuel; split; [reflexivity | intros a E; try discriminate; replace (n - i) with 0 by lia; lia]).
+    unfold bnd at 1. unfold with_limit.
+    destruct (limited_rok r u Hr) as [Hr0 Hu]. rewrite Hu in *.
+    unfold rd_bytes. go; try (split; [reflexivity | intros a E; discriminate]).
+    match goal with |- context [fix_items_loop _ ?kk ?ii ?nn ?uu ?ss ?aa ?r1 ?l1] =>
+      assert (Hr1 : rok r1) by rokt; assert (Hl1 : lok l1) by (lokt; rokt);
+      specialize (IH ii nn uu ss aa r1 l1 Hr1 Hl1 Hrsz);
+      destruct (fix_items_loop bs kk ii nn uu ss aa r1 l1) as [[y r2] l2] end.
+    destruct IH as [IH1 IH2]. rcbn. split; [lia|].
+    intros a E. specialize (IH2 a E). rcbn.
+    replace (n - i) with (n - (i + 1) + 1) by lia. rewrite N.mul_add_distr_r. lia.
+  Qed.
+
+
+  Lemma raw_items_loop_safe k : forall i n acc, safe (fuel_ok k) (fun _ => 0) 0 0 (raw_items_loop bs k i n acc).
   Proof.
     pose proof HL as HL'. induction k as [|k IH]; intros i n acc r l Hr Hl; pose proof (avail_ok r Hr) as Ha;
       cbn [raw_items_loop]; brk; try (fin; fail).
@@ -271,14 +377,16 @@ Section Safety.
   (* ---------------------------------------------------------------- one nesting level, given the next *)
   Section LevelSafe.
     Variable fx : fixes.
+    Hypothesis Hfx1 : fx1 fx = true.
+    Hypothesis Hfx14 : fx14 fx = true.
     Hypothesis Hfx15 : fx15 fx = true.
     Hypothesis Hfx16 : fx16 fx = true.
     Variable inner : N -> M msg.
     Variable lf : nat.
-    Hypothesis Hinner : forall d, safe (fuel_ok lf) (fun r => 28 * d + avail r) 0 (inner d).
+    Hypothesis Hinner : forall d, safe (fuel_ok lf) (fun r => 28 * d + avail r) 0 0 (inner d).
 
     Lemma msg_items_loop_safe k : (k <= lf)%nat -> forall d acc,
-      safe (fuel_ok k) (fun r => 28 * d + avail r + 24) 0 (msg_items_loop bs inner k d acc).
+      safe (fuel_ok k) (fun r => 28 * d + avail r + 24) 0 0 (msg_items_loop bs inner k d acc).
     Proof.
       pose proof HL as HL'. induction k as [|k IH]; intros Hk d acc r l Hr Hl; pose proof (avail_ok r Hr) as Ha.
       - cbn [msg_items_loop]. prims. go; try (done_post; rest; fail).
@@ -310,7 +418,7 @@ Section Safety.
     (* MessageField::Unflatten calls SingleUnflatten only when GetNumItemsInFlattenedBuffer said 1, which for a
        sub-Message needs its 4-byte length word to be there *)
     Lemma unflat_single_safe ft d : forall r l, rok r -> lok l -> (ft = TMessage -> 4 <= avail r) ->
-      post (fuel_ok lf) (fun r => 28 * d + avail r + 24) 0 r l (unflat_single bs inner ft d r l).
+      post (fuel_ok lf) (fun r => 28 * d + avail r + 24) 0 0 r l (unflat_single bs inner ft d r l).
     Proof.
       pose proof HL as HL'. intros r l Hr Hl Hpre; pose proof (avail_ok r Hr) as Ha.
       assert (Hr4 : 4 <= avail r -> rok (adv 4 r)) by (intro; rokt).
@@ -326,27 +434,27 @@ Section Safety.
                     c_SIZEOF_int16, c_SIZEOF_int8, c_POINT_FLATTENED_SIZE, c_RECT_FLATTENED_SIZE, c_SIZEOF_Point, c_SIZEOF_Rect in *.
 
     Lemma unflat_array_safe ft d : ft <> TPointer -> ft <> TTag ->
-      safe (fuel_ok lf) (fun r => 28 * d + avail r + 24) 0 (unflat_array bs fx inner lf ft d).
+      safe (fuel_ok lf) (fun r => 28 * d + avail r + 24) 0 0 (unflat_array bs fx inner lf ft d).
     Proof.
       pose proof HL as HL'. intros Hp Ht r l Hr Hl; pose proof (avail_ok r Hr) as Ha.
       assert (Hr4 : 4 <= avail r -> rok (adv 4 r)) by (intro; rokt).
-      unfold unflat_array. rewrite Hfx15.
+      unfold unflat_array. rewrite Hfx15, Hfx1.
       destruct ft; try congruence; sizes; prims; rewrite ?W_val.
       (* the quotient becomes an opaque N variable q with c*q <= avail (lia does not keep N quotients non-negative) *)
       all: try match goal with |- context [avail ?rr / ?c] =>
                  pose proof (N.mul_div_le (avail rr) c ltac:(lia));
                  let q := fresh "q" in set (q := avail rr / c) in *; clearbody q end.
-      all: go; try (done_post; rest; fail).
-      all: try (destruct (fx1 fx); go; try (done_post; rest; fail)).
+      all: go; try (fin; fail).
       all: try match goal with |- context [fix_items_loop _ ?k ?i ?n ?u ?s ?acc] =>
-             use (fix_items_loop_safe k i n u s acc ltac:(lia)) (fix_items_loop bs k i n u s acc) end.
+             use_t (fix_items_loop_safe k i n u s acc ltac:(lia))
+                   (fun r l Hr Hl => fix_items_loop_tight k i n u s acc r l Hr Hl ltac:(lia)) (fix_items_loop bs k i n u s acc) end.
       all: try match goal with |- context [msg_items_loop _ _ ?k ?dd ?acc] =>
              use (msg_items_loop_safe k (le_n k) dd acc) (msg_items_loop bs inner k dd acc) end.
       all: try match goal with |- context [str_items_loop _ ?k ?i ?n ?acc] =>
-             use (str_items_loop_safe k i n acc) (str_items_loop bs k i n acc) end.
+             use_t (str_items_loop_safe k i n acc) (str_items_loop_tight k i n acc) (str_items_loop bs k i n acc) end.
       all: try match goal with |- context [raw_items_loop _ ?k ?i ?n ?acc] =>
              use (raw_items_loop_safe k i n acc) (raw_items_loop bs k i n acc) end.
-      all: match goal with x : res items |- _ => destruct x end; go; try (done_post; rest; fail).
+      all: match goal with x : res items |- _ => destruct x end; go; try (fin; fail).
     Qed.
 
     Lemma ftype_ptr_tag tc : is_ptr_or_tag tc = false -> ftype_of_tc tc <> TPointer /\ ftype_of_tc tc <> TTag.
@@ -373,7 +481,7 @@ Section Safety.
     Qed.
 
     Lemma unflat_field_safe tc d :
-      safe (fuel_ok lf) (fun r => 28 * d + avail r + 24) 0 (unflat_field bs fx inner lf tc d).
+      safe (fuel_ok lf) (fun r => 28 * d + avail r + 24) 0 cost_arr (unflat_field bs fx inner lf tc d).
     Proof.
       pose proof HL as HL'. intros r l Hr Hl; pose proof (avail_ok r Hr) as Ha.
       unfold unflat_field. rewrite Hfx16. cbn [andb].
@@ -386,7 +494,7 @@ Section Safety.
       - unfold bnd.
         pose proof (unflat_single_safe ft d r l' Hr Hl' ltac:(intro E; apply Hn4; assumption)) as P.
         destruct (unflat_single bs inner ft d r l') as [[x r2] l2]. unfold post in P.
-        destruct P as (P1 & P2 & P3 & P4 & P5 & P6 & P7 & P8).
+        destruct P as (P1 & P2 & P3 & P4 & P5 & P6 & P7 & P8 & P9 & P10).
         destruct x; prims; go; done_post; rest.
       - unfold sub_reader. prims. rewrite NOLIM_val. go.
         replace (N.min 4294967295 (avail r)) with (avail r) by (unfold rok in *; lia).
@@ -396,7 +504,7 @@ Section Safety.
 
     (* DataUnflattenerReadLimiter(unflat, eLength) around unflat.ReadFlat(field) *)
     Lemma field_window_safe tc elen d :
-      safe (fuel_ok lf) (fun r => 28 * d + avail r + 24) 0
+      safe (fuel_ok lf) (fun r => 28 * d + avail r + 24) 0 cost_arr
            (with_limit elen (sub_reader NOLIM (unflat_field bs fx inner lf tc d))).
     Proof.
       pose proof HL as HL'. intros r l Hr Hl; pose proof (avail_ok r Hr) as Ha.
@@ -407,27 +515,28 @@ Section Safety.
       match goal with x : res repr |- _ => destruct x end; go; done_post; rest.
     Qed.
 
-    Lemma entries_loop_safe k : (k <= lf)%nat -> forall i n pend d acc,
-      safe (fuel_ok k) (fun r => 28 * d + avail r + 12) 0 (entries_loop bs fx inner lf k i n pend d acc).
+    Lemma entries_loop_safe k : (k <= lf)%nat -> forall i n pend d acc, pend <= tbl_default ->
+      safe (fuel_ok k) (fun r => 28 * d + avail r + 12) 0 0 (entries_loop bs fx inner lf k i n pend d acc).
     Proof.
-      pose proof HL as HL'. induction k as [|k IH]; intros Hk i n pend d acc r l Hr Hl; pose proof (avail_ok r Hr) as Ha;
+      pose proof HL as HL'. induction k as [|k IH]; intros Hk i n pend d acc Hpend r l Hr Hl; pose proof (avail_ok r Hr) as Ha;
         cbn [entries_loop]; brk; try (fin; fail).
       - fin. intro HF; unfold fuel_ok in HF; cbn in HF; lia.
       - unfold bnd at 1.
-        use rd_lp_string_safe (rd_lp_string bs).
-        match goal with x : res bytes |- _ => destruct x as [name| | |] end; try (done_post; rest; fail).
-        specialize (Ppr name eq_refl).
-        prims. rewrite ?W_val. go; try (done_post; rest; fail).
-        all: destruct (flookup name acc) as [[tc' rp']|]; cbv beta iota zeta; go; try (done_post; rest; fail).
+        use_t rd_lp_string_safe rd_lp_string_facts (rd_lp_string bs).
+        destruct Ht as [Ht Hn].
+        match goal with x : res bytes |- _ => destruct x as [name| | |] end; try (fin; fail).
+        specialize (Ppr name eq_refl). specialize (Hn name eq_refl).
+        prims. rewrite ?W_val. go; try (fin; fail).
+        all: destruct (flookup name acc) as [[tc' rp']|]; cbv beta iota zeta; go; try (fin; fail).
         all: match goal with |- context [with_limit ?el (sub_reader NOLIM (unflat_field _ _ _ _ ?tcx ?dd))] =>
                use (field_window_safe tcx el dd) (with_limit el (sub_reader NOLIM (unflat_field bs fx inner lf tcx dd))) end.
-        all: match goal with x : res repr |- _ => destruct x end; go; try (done_post; rest; fail).
-        all: match goal with |- context [entries_loop _ _ _ _ ?kk ?ii ?nn ?pp ?dd ?aa] =>
-               use (IH ltac:(lia) ii nn pp dd aa) (entries_loop bs fx inner lf kk ii nn pp dd aa) end.
-        all: done_post; rest.
+        all: match goal with x : res repr |- _ => destruct x end; go; try (fin; fail).
+        all: try match goal with |- context [entries_loop _ _ _ _ ?kk ?ii ?nn ?pp ?dd ?aa] =>
+               use (IH ltac:(lia) ii nn pp dd aa Hpend) (entries_loop bs fx inner lf kk ii nn pp dd aa) end.
+        all: try (fin; fail).
     Qed.
 
-    Lemma msg_level_safe d : safe (fuel_ok (S lf)) (fun r => 28 * d + avail r) 0 (msg_level bs fx inner lf d).
+    Lemma msg_level_safe d : safe (fuel_ok (S lf)) (fun r => 28 * d + avail r) 0 0 (msg_level bs fx inner lf d).
     Proof.
       pose proof HL as HL'. intros r l Hr Hl; pose proof (avail_ok r Hr) as Ha.
       unfold msg_level. prims. rewrite ?W_val. cbv beta iota zeta. rcbn.
@@ -435,16 +544,16 @@ Section Safety.
       all: match goal with |- context [if negb ?c then _ else _] => destruct c; cbn [negb] end; try (done_post; rest; fail).
       all: go; try (done_post; rest; fail).
       all: match goal with |- context [entries_loop _ _ _ _ ?kk ?ii ?nn ?pp ?dd ?aa] =>
-             use (entries_loop_safe kk (le_n kk) ii nn pp dd aa) (entries_loop bs fx inner lf kk ii nn pp dd aa) end.
+             use (entries_loop_safe kk (le_n kk) ii nn pp dd aa ltac:(rewrite ?Hfx14; lia)) (entries_loop bs fx inner lf kk ii nn pp dd aa) end.
       all: match goal with x : res fields |- _ => destruct x end; go; try (done_post; rest; fail).
     Qed.
   End LevelSafe.
 
   (* ---------------------------------------------------------------- Message::Unflatten, every nesting depth *)
-  Lemma unflat_msg_safe fx : fx15 fx = true -> fx16 fx = true -> forall fuel d,
-    safe (fuel_ok fuel) (fun r => 28 * d + avail r) 0 (unflat_msg bs fx fuel d).
+  Lemma unflat_msg_safe fx : fx1 fx = true -> fx14 fx = true -> fx15 fx = true -> fx16 fx = true -> forall fuel d,
+    safe (fuel_ok fuel) (fun r => 28 * d + avail r) 0 0 (unflat_msg bs fx fuel d).
   Proof.
-    intros H15 H16. induction fuel as [|f IH]; intro d.
+    intros H1 H14 H15 H16. induction fuel as [|f IH]; intro d.
     - intros r l Hr Hl. cbn [unflat_msg]. fin. intro HF; unfold fuel_ok in HF; cbn in HF; lia.
     - cbn [unflat_msg]. apply msg_level_safe; assumption.
   Qed.
@@ -459,11 +568,11 @@ Section Safety.
     - rewrite (avail_ok _ Hr). unfold reader0; cbn [r_rd r_max]. fold L. lia.
   Qed.
 
-  Lemma unflatten_post fx : fx15 fx = true -> fx16 fx = true ->
-    post (fuel_ok (S (length bs))) (fun r => 28 * 0 + avail r) 0 (reader0 bs) log0 (unflatten_i bs fx).
+  Lemma unflatten_post fx : fx1 fx = true -> fx14 fx = true -> fx15 fx = true -> fx16 fx = true ->
+    post (fuel_ok (S (length bs))) (fun r => 28 * 0 + avail r) 0 0 (reader0 bs) log0 (unflatten_i bs fx).
   Proof.
-    intros H15 H16. destruct reader0_ok as (Hr & Hl & _).
-    unfold unflatten_i. apply (unflat_msg_safe fx H15 H16 (S (length bs)) 0 _ _ Hr Hl).
+    intros H1 H14 H15 H16. destruct reader0_ok as (Hr & Hl & _).
+    unfold unflatten_i. apply (unflat_msg_safe fx H1 H14 H15 H16 (S (length bs)) 0 _ _ Hr Hl).
   Qed.
 End Safety.
 
@@ -473,14 +582,14 @@ Definition fits (bs : bytes) : Prop := len bs < 2147483648.
 Theorem parse_in_bounds_proof : forall bs, fits bs ->
   Forall (in_bounds (len bs)) (accesses (unflatten_i bs fixed)).
 Proof.
-  intros bs Hb. pose proof (unflatten_post bs Hb fixed eq_refl eq_refl) as P.
+  intros bs Hb. pose proof (unflatten_post bs Hb fixed eq_refl eq_refl eq_refl eq_refl) as P.
   unfold accesses, log_of. destruct (unflatten_i bs fixed) as [[x r] l]. cbn [snd].
   unfold post in P. tauto.
 Qed.
 
 Theorem parse_fuel_proof : forall bs, fits bs -> result_of (unflatten_i bs fixed) <> Fuel.
 Proof.
-  intros bs Hb. pose proof (unflatten_post bs Hb fixed eq_refl eq_refl) as P.
+  intros bs Hb. pose proof (unflatten_post bs Hb fixed eq_refl eq_refl eq_refl eq_refl) as P.
   destruct (reader0_ok bs Hb) as (_ & _ & HF & _).
   unfold result_of. destruct (unflatten_i bs fixed) as [[x r] l]. cbn [fst].
   unfold post in P. destruct P as (_ & _ & _ & _ & P & _). exact (P HF).
@@ -489,14 +598,14 @@ Qed.
 Theorem parse_no_abort_proof : forall bs, fits bs ->
   result_of (unflatten_i bs fixed) <> Crash /\ ub_events (unflatten_i bs fixed) = 0.
 Proof.
-  intros bs Hb. pose proof (unflatten_post bs Hb fixed eq_refl eq_refl) as P.
+  intros bs Hb. pose proof (unflatten_post bs Hb fixed eq_refl eq_refl eq_refl eq_refl) as P.
   unfold result_of, ub_events, log_of. destruct (unflatten_i bs fixed) as [[x r] l]. cbn [fst snd].
   unfold post in P. destruct P as (_ & _ & _ & Pc & _ & Pu & _). split; [exact Pc | exact Pu].
 Qed.
 
 Theorem parse_depth_proof : forall bs, fits bs -> 28 * depth_reached (unflatten_i bs fixed) <= len bs.
 Proof.
-  intros bs Hb. pose proof (unflatten_post bs Hb fixed eq_refl eq_refl) as P.
+  intros bs Hb. pose proof (unflatten_post bs Hb fixed eq_refl eq_refl eq_refl eq_refl) as P.
   destruct (reader0_ok bs Hb) as (_ & _ & _ & Ha).
   unfold depth_reached, log_of. destruct (unflatten_i bs fixed) as [[x r] l]. cbn [snd].
   unfold post in P. destruct P as (_ & _ & _ & _ & _ & _ & Pd & _).
@@ -505,8 +614,22 @@ Qed.
 
 Theorem parse_consumed_proof : forall bs, fits bs -> consumed (unflatten_i bs fixed) <= len bs.
 Proof.
-  intros bs Hb. pose proof (unflatten_post bs Hb fixed eq_refl eq_refl) as P.
+  intros bs Hb. pose proof (unflatten_post bs Hb fixed eq_refl eq_refl eq_refl eq_refl) as P.
   unfold consumed, reader_of. destruct (unflatten_i bs fixed) as [[x r] l]. cbn [fst snd].
   unfold post in P. destruct P as (Pr & Pf & _). unfold rok, frame, reader0 in *. cbn [r_base r_rd r_max] in *. lia.
 Qed.
 
+(* a successful parse allocates at most KA model-bytes per byte consumed, a failing one at most KA per byte of the buffer *)
+Theorem parse_alloc_linear_proof : forall bs, fits bs -> allocated (unflatten_i bs fixed) <= KA * len bs.
+Proof.
+  intros bs Hb. pose proof (unflatten_post bs Hb fixed eq_refl eq_refl eq_refl eq_refl) as P.
+  destruct (reader0_ok bs Hb) as (_ & _ & HF & Ha).
+  unfold allocated, log_of. destruct (unflatten_i bs fixed) as [[x r] l]. cbn [snd].
+  unfold post in P. destruct P as (Pr & Pf & _ & Pc & Pfu & _ & _ & _ & Pao & Pae).
+  unfold rok, frame, reader0 in *. cbn [r_base r_rd r_max l_al log0] in *.
+  destruct x as [m| | |].
+  - specialize (Pao m eq_refl). unfold KA in *. lia.
+  - specialize (Pae eq_refl). rewrite Ha in Pae. lia.
+  - exfalso. apply (Pfu HF). reflexivity.
+  - exfalso; apply Pc; reflexivity.
+Qed.
